@@ -62,7 +62,7 @@ def execute(ctx, props):
 def run(ctx):
     fails, named = execute(ctx, ("C11",))
     for need in ("metrics-after-parked-event-same-source", "event-after-parked-metrics-same-source", "second-batch-for-pending-source",
-                 "answer-negative", "empty-source", "emit"):
+                 "answer-negative", "empty-source", "emit", "failed-lookup-cache-keeps-instance"):
         if named.get(need, 0) == 0 and not (ctx.violations or locals().get("fails")):  # no vacuity verdict once something was found
             raise vlib.MachineryError("vacuity: %s never reached" % need)
     ctx.cov["named_situations"] = named
